@@ -159,12 +159,31 @@ func (t *domainRoutingTracker) syncOwner(
 	ownerKey string,
 	snapshot domainRoutingOwnerSnapshot,
 ) error {
+	return t.syncOwnerIf(m, ownerKey, snapshot, nil)
+}
+
+// syncOwnerIf is syncOwner with an optional guard that is evaluated while the
+// tracker lock is held. When the guard reports false nothing is changed. It
+// lets a deferred refresh verify, atomically with the update it is about to
+// make, that the snapshot still describes the published cache entry: every
+// cache mutation is followed by its own syncOwner call, so a mutation the
+// guard did not see yet is ordered after this call and wins.
+func (t *domainRoutingTracker) syncOwnerIf(
+	m *ebpf.Map,
+	ownerKey string,
+	snapshot domainRoutingOwnerSnapshot,
+	guard func() bool,
+) error {
 	if ownerKey == "" {
 		return fmt.Errorf("empty domain routing owner key")
 	}
 
 	t.mu.Lock()
 	defer t.mu.Unlock()
+
+	if guard != nil && !guard() {
+		return nil
+	}
 
 	oldSnapshot := t.owners[ownerKey]
 	affected := make(map[[4]uint32]struct{}, len(oldSnapshot.ips)+len(snapshot.ips))
